@@ -73,6 +73,21 @@ def _run_seed(job):
 
 
 def _run_twin(job):
+    import signal
+
+    from .selftest import _Timeout, _alarm
+
+    signal.signal(signal.SIGALRM, _alarm)
+    signal.alarm(int(os.environ.get("SA_TWIN_TIMEOUT", "300")))
+    try:
+        return _run_twin_inner(job)
+    except _Timeout:
+        return job[1], 2, ["timeout: the analysis of this variant did not finish"]
+    finally:
+        signal.alarm(0)
+
+
+def _run_twin_inner(job):
     pid, tid, fn, new, root = job
     from .__main__ import run_property
     from .repo import Repo
@@ -136,7 +151,7 @@ def sweep(pid, report, repo, jobs=None, twin_limit=None):
         for fam in fams:
             files = [f for f in touched if (f.endswith(".py") if fam != "pyx" else not f.endswith(".py"))]
             for f in files:
-                for k in range(shards if fam in ("rename-local", "flip-compare", "negate-if", "augassign", "ifexp-to-if") else 1):
+                for k in range(shards if fam not in ("reformat", "permissive", "pyx") else 1):
                     jobs_.append((pid, fam, f, (k, shards) if fam not in ("reformat", "permissive", "pyx") else None, root))
         tres = [x for part in pool.imap_unordered(_run_twin_shard, jobs_, chunksize=1) for x in part]
     work = tres
